@@ -330,7 +330,7 @@ Section Ctor.
      no __post_init__, leaf attributes with scalar / factory-of-scalars defaults *)
   Definition ctor_class (c : cid) (k : cls) : Prop :=
     lookup_cls ct c = Some k /\ flat_class k /\ c_owner k = c /\ tl (c_mro k) = [] /\
-    c_post_init k = None /\
+    oqfn (c_post_init k) /\
     forall sp, In sp (c_attrs k) -> leaf_attr sp /\ default_ok k sp.
 
   Definition kw_flat (kw : list (aid * val)) (h : heap_t) : Prop :=
@@ -424,10 +424,15 @@ Section Ctor.
       + intros sp' Ha'. apply Hat. eapply lookup_attr_in; eauto.
       + intros h [[I [K N]] L]. split; [split; auto|]. split; auto.
       + intros r h [[I K] N]. split; [exact I|split; auto].
-    - intros ?. rewrite Hpi.
+    - intros ?.
       eapply T_bind with (Q := fun _ h => Inv h); [|intros ?; apply T_ret; auto].
-      eapply T_bind with (Q := fun _ h => Inv h); [apply T_ret; exact GE|]. intros ?.
-      apply raw_delattr_Inv; auto.
+      eapply T_bind with (Q := fun _ h => Inv h).
+      + (* __post_init__: a quiet callback *)
+        destruct (c_post_init k) as [g|]; [|apply T_ret; exact GE].
+        eapply T_bind with (Q := fun _ h => Inv h); [|intros ?; apply T_ret; auto].
+        eapply T_conseq; [apply (apply_fn_quiet ct Hflat g VNone G Hpi (proj1 (proj1 SG)))|auto| |exact GE].
+        intros r h [[H _] _]. exact H.
+      + intros ?. apply raw_delattr_Inv; auto.
   Qed.
 
   Lemma exec_init_inv fuel c k l kw :
